@@ -77,7 +77,7 @@ def build(ctx):
         w = atom(("mcall", atom(("call", "numpy.sum", (adj,), (("axis", const(1)),))), "astype", (atom(("global", "builtins.int")),), ()))
         Q = atom(("call", "numpy.lcm.reduce", (w,), ()))
         m = Q / w
-        ok = T.same(a[2][0], m * atom(("call", "numpy.identity", (atom(("call", "len", (m,), ())),), ())))
+        ok = T.same(q.len_norm(a[2][0]), m * atom(("call", "numpy.identity", (atom(("call", "len", (m,), ())),), ())))
     ctx.ob("FRM", site, "nnps_matrix = diag(Q / row weight) * adjacency, Q = lcm of the row weights", ok, q.short(nm, 200) if nm is not None else "")
 
 
